@@ -227,6 +227,10 @@ func HbhOptionLists() [][]*wire.N {
 		{Option(1, 12)},
 		{Option(5, 2), Option(7, 4), Option(1, 2)},
 		{Option(1, 252)},
+		// option type 0 carried as an ordinary type-length-value option (the library does not know Pad1)
+		{Option(0, 4)},
+		{Option(0, 0), Option(5, 2)},
+		{Option(5, 2), Option(0, 2), Option(0, 4)},
 	}
 }
 
@@ -274,6 +278,22 @@ func Packets(thorough bool, yield func(n *wire.N)) {
 			recs = append(recs, GroupRec(uint64(i+1), i))
 		}
 		yield(Igmp3Report(recs...))
+	}
+	// a report with two records for the same group that differ otherwise (allow new sources + block old
+	// sources is an ordinary state-change report), and with the same record twice
+	yield(Igmp3Report(GroupRec(5, 1), GroupRec(6, 2)))
+	yield(Igmp3Report(GroupRec(5, 1), GroupRec(5, 1), GroupRec(6, 0)))
+	yield(Eth(nil, 0x0800, IPv4(2, 0, Igmp3Report(GroupRec(6, 2), GroupRec(5, 1)))))
+	// transport checksums of zero ("not computed") under both IP versions
+	for _, mk := range []func() *wire.N{func() *wire.N { return Udp(6) }, func() *wire.N { return Icmp(128, 4) }, func() *wire.N { return Tcp(3) }} {
+		t := mk().Set("Checksum", 0)
+		nh := map[string]uint64{"udp": 17, "icmp": 58, "tcp": 6}[t.K]
+		yield(t.Clone())
+		yield(IPv6(nil, nh, t.Clone()))
+		yield(Eth(nil, 0x86dd, IPv6(nil, nh, t.Clone())))
+		if t.K != "icmp" {
+			yield(IPv4(nh, 0, t.Clone()))
+		}
 	}
 	for _, ol := range HbhOptionLists() {
 		yield(Hbh(58, clones(ol...)...))
